@@ -22,6 +22,7 @@ func init() {
 			r.borrow("C07", func() { ruleC07R2(r) }) // a frame for a full subscriber must not stall the read path
 			r.borrow("C08", func() { ruleD1(r) })    // a late reply for a requester that gave up must not wedge the request router
 			r.borrow("C11", func() { ruleC11M7(r) }) // a rejected frame must not stay in the pooled buffer and be parsed in front of the next one
+			ruleC12D7(r)
 			ruleNoSwallowedErrors(r, "D6", 10, true, "/encoding", "/encoding/json", "/encoding/protobuf", "/encoding/convert")
 			if pk := r.P.ByPath[modPath+"/encoding/convert"]; pk != nil {
 				ruleC11M12(r, pk)
@@ -268,4 +269,132 @@ func ruleC12D3(r *Run) {
 		})
 	}
 	r.Check("replies are converted with a checked assertion", ok, "", "wire", "at least one comma-ok assertion on the reply of sendRequest must exist (the typed Send…Request functions convert the reply somewhere)")
+}
+
+// ruleC12D7: only the goroutine that closes a channel sends on it. The read loops close their fan-out channels when
+// their transport ends; a send from another goroutine after that is a "send on closed channel" panic in a library
+// goroutine, which no recover catches — a frame on the unreliable transport after the reliable one has ended would
+// kill the process.
+func ruleC12D7(r *Run) {
+	r.Begin("D7", "only the closer sends: for every channel field of wire.ClientConn that some function closes, every send on that field (plain, in a select, or through a send helper) is made in a function whose only goroutine root is the goroutine that performs the close", 5)
+	p := r.P
+	// goroutine roots of a function: climb static call sites; a function without call sites (or started by go) is a root
+	var rootsOf func(fn *ssa.Function, depth int, seen map[*ssa.Function]bool, out map[*ssa.Function]bool)
+	rootsOf = func(fn *ssa.Function, depth int, seen map[*ssa.Function]bool, out map[*ssa.Function]bool) {
+		if fn == nil || seen[fn] {
+			return
+		}
+		seen[fn] = true
+		top := fn
+		if top.Parent() != nil && !isGoBody(top) {
+			// a plain function literal runs in the goroutine of the function it is written in (unless started by go)
+			rootsOf(top.Parent(), depth, seen, out)
+			return
+		}
+		sites := p.staticCallSites(top)
+		calls := 0
+		for _, s := range sites {
+			if _, isGo := s.(*ssa.Go); isGo {
+				out[top] = true
+				continue
+			}
+			calls++
+			if depth < 5 {
+				rootsOf(s.Parent(), depth+1, seen, out)
+			}
+		}
+		if calls == 0 {
+			out[top] = true
+		}
+	}
+	fieldOfChan := func(v ssa.Value) string {
+		for _, l := range p.Leaves(v, provOpts{}) {
+			if strings.HasPrefix(l, "field:/wire.ClientConn.") {
+				return strings.TrimPrefix(l, "field:")
+			}
+		}
+		return ""
+	}
+	closers := map[string]map[*ssa.Function]bool{}
+	for _, fn := range p.Funcs {
+		if fnPkgPath(fn) != modPath+"/wire" || fn.Blocks == nil {
+			continue
+		}
+		allInstrs(fn, func(ins ssa.Instruction) {
+			cc := instrCall(ins)
+			if cc == nil {
+				return
+			}
+			if b, isB := cc.Value.(*ssa.Builtin); isB && b.Name() == "close" && len(cc.Args) == 1 {
+				if fk := fieldOfChan(cc.Args[0]); fk != "" {
+					if closers[fk] == nil {
+						closers[fk] = map[*ssa.Function]bool{}
+					}
+					rootsOf(fn, 0, map[*ssa.Function]bool{}, closers[fk])
+				}
+			}
+		})
+	}
+	r.Stat("closed_channel_fields", len(closers))
+	n := 0
+	for _, fn := range p.Funcs {
+		if fnPkgPath(fn) != modPath+"/wire" || fn.Blocks == nil {
+			continue
+		}
+		name := fnName(fn)
+		k := 0
+		check := func(at ssa.Instruction, ch ssa.Value) {
+			fk := fieldOfChan(ch)
+			if fk == "" || closers[fk] == nil {
+				return
+			}
+			k++
+			n++
+			roots := map[*ssa.Function]bool{}
+			rootsOf(fn, 0, map[*ssa.Function]bool{}, roots)
+			bad := ""
+			shared := false
+			for rt := range roots {
+				if closers[fk][rt] {
+					shared = true
+				}
+			}
+			for rt := range roots {
+				if !closers[fk][rt] {
+					bad = fnName(rt)
+				}
+			}
+			// a helper shared by the closing goroutine and others (one dispatch function for both read loops) may be
+			// restricted, at its other call sites, to message types whose channels that caller owns: which branch a
+			// caller can take depends on the dynamic type it passes, not decided here
+			if shared && bad != "" {
+				r.Check(fmt.Sprintf("%s send#%d on %s by the closing goroutine", name, k, fk[strings.LastIndexByte(fk, '.')+1:]), true, posOf(p, at), name, "shared with the goroutine of "+bad+": not decided (depends on the message types that caller passes)")
+				return
+			}
+			r.Check(fmt.Sprintf("%s send#%d on %s by the closing goroutine", name, k, fk[strings.LastIndexByte(fk, '.')+1:]), bad == "", posOf(p, at), name, "the send can run in the goroutine of "+bad+", which is not the goroutine that closes "+fk+": once the closer has ended, the send panics (send on closed channel) in a goroutine nobody recovers")
+		}
+		allInstrs(fn, func(ins ssa.Instruction) {
+			switch x := ins.(type) {
+			case *ssa.Send:
+				check(x, x.Chan)
+			case *ssa.Select:
+				for _, st := range x.States {
+					if st.Dir == types.SendOnly {
+						check(x, st.Chan)
+					}
+				}
+			case *ssa.Call:
+				if cal := x.Call.StaticCallee(); cal != nil && p.Analysed(cal) && cal.Blocks != nil {
+					for i, a := range x.Call.Args {
+						if _, isCh := a.Type().Underlying().(*types.Chan); isCh && len(paramSends(cal, i, 0)) > 0 {
+							check(x, a)
+						}
+					}
+				}
+			}
+		})
+	}
+	if n == 0 {
+		r.Undecided("sends on closed-by-someone channels", "none found")
+	}
 }
